@@ -471,6 +471,16 @@ impl<'a> Run<'a> {
                 return (true, vec!["stream outgrew the scenario bound".into()], t0.elapsed().as_millis());
             }
             let p = self.pending();
+            // `patient`: hold every wait for the full long timeout whatever is believed to be owed (re-run of a scenario in
+            // which the observer missed a frame the runner did not wait for: absence counts only after the long wait)
+            let patient = insist && self.sc["patient"].as_bool().unwrap_or(false);
+            if patient {
+                if t0.elapsed() >= long {
+                    return (true, if p.is_empty() { vec!["patient wait".into()] } else { p }, t0.elapsed().as_millis());
+                }
+                std::thread::sleep(poll);
+                continue;
+            }
             if p.is_empty() && last_growth.elapsed() >= settle {
                 return (false, vec![], t0.elapsed().as_millis());
             }
@@ -497,8 +507,14 @@ impl<'a> Run<'a> {
         let idx = a["i"].as_u64().unwrap_or(0) as usize;
         match a["a"].as_str().unwrap_or("") {
             "restart" => {
+                // `patient`: before this restart the runner waited until nothing was owed, or for the whole long timeout -
+                // whatever the processors were going to do about the frames appended so far, they had the time to do it
+                let mut patient = false;
                 let quiet = if a["quiet"].as_bool().unwrap_or(true) {
-                    let (to, _, _) = self.wait_quiet(tm.step_settle.max(Duration::from_millis(60)), tm.long, tm.poll);
+                    let (to, _, waited) = self.wait_quiet(tm.step_settle.max(Duration::from_millis(60)), tm.long, tm.poll);
+                    // (after a first long timeout the later waits of a run are cut to 3 s: that run is already judged by
+                    // its timeout, and 3 s is still long against the milliseconds a processor needs)
+                    patient = !to || waited >= tm.long.as_millis() || (self.first_timeout.is_some() && waited >= 3000);
                     !to
                 } else {
                     self.refresh();
@@ -514,7 +530,7 @@ impl<'a> Run<'a> {
                 }
                 self.inc += 1;
                 self.clock += 5;
-                self.restarts.push(json!({"how": how, "quiet": quiet, "inc": self.inc}));
+                self.restarts.push(json!({"how": how, "quiet": quiet, "patient": patient, "inc": self.inc}));
                 self.start_worker();
                 // frames written by the old incarnation after the last refresh belong to it
                 let b = self.boundaries.last().cloned().unwrap_or_default();
